@@ -115,14 +115,40 @@ class Check:
 
     # ---- step 1: translators -------------------------------------------------
     def translators(self):
-        for t in self.cfg.get("translators", []):
-            rc, out, dt = run([sys.executable, os.path.join(VERIF, "tools", "gen", t + ".py")], cwd=os.path.join(VERIF, "tools", "gen"), timeout=120)
+        gen_dir = os.path.join(VERIF, "tools", "gen")
+        def one(t):
+            return run([sys.executable, os.path.join(gen_dir, t + ".py")], cwd=gen_dir, timeout=120)
+        def record(t, rc, out, note=""):
             ok = rc == 0
-            self.obligations.append(("translator:" + t, ok, out.strip().splitlines()[-1] if out.strip() else ""))
+            self.obligations.append(("translator:" + t, ok, (out.strip().splitlines()[-1] if out.strip() else "") + note))
             if not ok:
                 self.broken.append({"kind": "translator", "name": t, "detail": out.strip()[-2000:]})
                 log("translator %s FAILED: %s" % (t, out.strip()[-300:]))
-        run([sys.executable, os.path.join(VERIF, "tools", "gen", "dispatch.py")], cwd=os.path.join(VERIF, "tools", "gen"))
+        mine = list(self.cfg.get("translators", []))
+        for t in mine:
+            rc, out, dt = one(t)
+            record(t, rc, out)
+        # Every other translator runs too, so that no generated file (Lean or harness glue) is left over from a
+        # different state of the repository.  One whose Lean output is imported by this property's modules is an
+        # obligation of this property as well; the failure of one that is not imported is ignored here (its output
+        # stays as it was and belongs to another property's check).
+        others, produces = [], {}
+        for f in sorted(os.listdir(gen_dir)):
+            if not f.endswith(".py") or f[:-3] in ("common", "dispatch"):
+                continue
+            with open(os.path.join(gen_dir, f)) as fh:
+                produces[f[:-3]] = re.findall(r'write_if_changed\(\s*"(\w+)\.lean"', fh.read())
+            if f[:-3] not in mine:
+                others.append(f[:-3])
+        from concurrent.futures import ThreadPoolExecutor
+        with ThreadPoolExecutor(max_workers=8) as ex:
+            results = dict(zip(others, ex.map(one, others)))
+        run([sys.executable, os.path.join(gen_dir, "dispatch.py")], cwd=gen_dir)
+        closure = module_files(list(self.cfg.get("lean_targets", [])) + [drv_module(st) for st in self.cfg.get("streams", [])])
+        for t in others:
+            if any(("FuelVerif.Gen." + g) in closure for g in produces.get(t, [])):
+                rc, out, dt = results[t]
+                record(t, rc, out, "  (imported by this property's modules)")
 
     # ---- step 2: lake build + audit -----------------------------------------
     def lake(self):
